@@ -75,6 +75,8 @@ def parse_catalogue(path):
             cur = {'name': parts[0], 'tags': parts[1:], 'terms': None, 'lines': []}
         elif line.startswith('terms:'):
             cur['terms'] = line[len('terms:'):].split()
+        elif line.startswith('nts:'):
+            cur['nts'] = line[len('nts:'):].split()       # the order of nterms(...) when it is not the order of the rules
         elif line.startswith('root:'):
             cur['root'] = line[len('root:'):].strip()       # the start symbol when it is not the first left side
         else:
@@ -99,7 +101,8 @@ def _finish(c):
                 prec = int(toks[-1][1:-1]); toks = toks[:-1]
             toks = [t for t in toks if t != 'eps']
             prods.append((l, toks, prec))
-    nts = lhs_order
+    nts = c.get('nts') or lhs_order
+    assert sorted(nts) == sorted(lhs_order), (c['name'], nts, lhs_order)
     ts, tprec, tassoc = [], {}, {}
     if c['terms']:
         for t in c['terms']:
@@ -116,7 +119,7 @@ def _finish(c):
                 ts.append(s)
     for t in ts:
         assert len(t) == 1, (c['name'], t)
-    return Grammar(c['name'], nts, ts, c.get('root', nts[0]), prods, tprec, tassoc, c['tags'])
+    return Grammar(c['name'], nts, ts, c.get('root', lhs_order[0]), prods, tprec, tassoc, c['tags'])
 
 
 # ---------------------------------------------------------------- host mapping
